@@ -50,13 +50,13 @@ Section Generic.
   Qed.
 
   Lemma for_enum_mapM : forall (f : val -> M val) xs i r s,
-    for_enum (fun i x => f (VList [VInt i; x])) (Z.of_nat i) xs r s
-    = bind (mapM f (map (fun p => VList [VInt (Z.of_nat (fst p)); snd p]) (combine (seq i (List.length xs)) xs)))
+    for_enum (fun i x => f (pair_val i x)) (Z.of_nat i) xs r s
+    = bind (mapM f (map (fun p => pair_val (Z.of_nat (fst p)) (snd p)) (combine (seq i (List.length xs)) xs)))
            (fun us => ret (r ++ us)) s.
   Proof.
     induction xs as [|x xs IH]; intros i r s; simpl.
     - unfold bind, ret. rewrite app_nil_r. reflexivity.
-    - unfold bind at 1 2 3. run (f (VList [VInt (Z.of_nat i); x]) s); try reflexivity.
+    - unfold bind at 1 2 3. run (f (pair_val (Z.of_nat i) x) s); try reflexivity.
       replace (Z.of_nat i + 1) with (Z.of_nat (Datatypes.S i)) by lia.
       rewrite IH. unfold bind.
       match goal with |- context [mapM f ?l s0] => run (mapM f l s0) end; try reflexivity.
@@ -80,7 +80,8 @@ Section Generic.
 
   Lemma each_agrees : forall (f : val -> M val) a s, agrees (m_each f a s) (s_each f a s).
   Proof.
-    intros f a s. destruct a as [z|c|str|l|kvs].
+    intros f a s. destruct a as [z|r|c|str|l|kvs].
+    - apply agrees_refl.
     - apply agrees_refl.
     - apply agrees_refl.
     - destruct str as [|c str]; [apply agrees_refl|].
@@ -113,7 +114,7 @@ Section Generic.
     intros f a b s. unfold m_each_left, s_each_left.
     destruct (is_empty b) eqn:He.
     - rewrite andb_false_r.
-      destruct b as [| |[|]|[|]|]; try discriminate; reflexivity.
+      destruct b as [| | |[|]|[|]|]; try discriminate; reflexivity.
     - rewrite andb_true_r. destruct (is_atom b); [reflexivity|].
       apply for_append_nil.
   Qed.
@@ -123,7 +124,7 @@ Section Generic.
     intros f a b s. unfold m_each_right, s_each_right.
     destruct (is_empty b) eqn:He.
     - rewrite andb_false_r.
-      destruct b as [| |[|]|[|]|]; try discriminate; reflexivity.
+      destruct b as [| | |[|]|[|]|]; try discriminate; reflexivity.
     - rewrite andb_true_r. destruct (is_atom b); [reflexivity|].
       apply for_append_nil.
   Qed.
@@ -142,19 +143,18 @@ Section Generic.
   Qed.
 
   Lemma each2_agrees : forall (f : val -> val -> M val) a b s,
-    each2_dom a b = true -> agrees (m_each2 f a b s) (s_each2 f a b s).
+    agrees (m_each2 f a b s) (s_each2 f a b s).
   Proof.
-    intros f a b s Hdom. unfold m_each2, s_each2.
+    intros f a b s. unfold m_each2, s_each2.
     destruct (is_empty a || is_empty b) eqn:He.
     - split; [|reflexivity]. simpl. destruct (is_list a || is_list b); reflexivity.
-    - unfold each2_dom in Hdom. rewrite He in Hdom. simpl in Hdom.
-      destruct (is_atom a) eqn:Ha; destruct (is_atom b) eqn:Hb; try discriminate; cbn [andb].
-      + apply agrees_refl.
-      + assert (forall v, is_atom v = false -> seq_of v = Some (items v)) as Hs.
-        { intros v Hv. destruct v; try discriminate; reflexivity. }
-        rewrite (Hs a Ha), (Hs b Hb). rewrite for_zip_nil. unfold bind.
-        run (map2M f (items a) (items b) s); split; simpl; auto.
-        apply norm_join_or_list.
+    - destruct (is_atom a && is_atom b); [apply agrees_refl|].
+      assert (forall v, seq_of v = pairable v) as Hs by (intro v; destruct v; reflexivity).
+      rewrite (Hs a), (Hs b).
+      destruct (pairable a) as [xs|]; destruct (pairable b) as [ys|]; try apply agrees_refl.
+      rewrite for_zip_nil. unfold bind.
+      run (map2M f xs ys s); split; simpl; auto.
+      apply norm_join_or_list.
   Qed.
 
   (* ---------------------------------------------------------------- Over: iteration = nesting *)
@@ -189,7 +189,7 @@ Section Generic.
     intros tbl f a s. unfold m_over, s_over.
     destruct (is_atom a) eqn:Ha; [reflexivity|].
     destruct (items a) as [|x [|y xs]] eqn:Hit.
-    - destruct a as [| |[|]|[|]|]; simpl in *; try discriminate.
+    - destruct a as [| | |[|]|[|]|]; simpl in *; try discriminate.
     - reflexivity.
     - change (over_shortcut tbl None (x :: y :: xs)) with (@None (res val)). cbv iota. apply py_reduce_nest.
   Qed.
@@ -198,7 +198,7 @@ Section Generic.
   Proof. intros b H. unfold members. rewrite H. reflexivity. Qed.
 
   Lemma nonatom_items : forall b, is_atom b = false -> items b <> [].
-  Proof. intros b H. destruct b as [| |[|]|[|]|]; simpl in *; try discriminate. Qed.
+  Proof. intros b H. destruct b as [| | |[|]|[|]|]; simpl in *; try discriminate. Qed.
 
   Lemma over_neutral_eq : forall (f : val -> val -> M val) a b s,
     m_over_neutral f a b s = s_over_neutral f a b s.
@@ -406,40 +406,50 @@ Section Pure.
 End Pure.
 
 (* ------------------------------------------------------------------ the operator shortcuts *)
-Lemma ints_of_spec : forall xs zs, ints_of xs = Some zs -> xs = map VInt zs.
+Lemma num_of_vnum : forall v n, num_of v = Some n -> v = vnum n.
+Proof. intros v n H. destruct v; inversion H; reflexivity. Qed.
+
+Lemma nums_of_spec : forall xs ns, nums_of xs = Some ns -> xs = map vnum ns.
 Proof.
-  induction xs as [|x xs IH]; intros zs H; simpl in H.
+  induction xs as [|x xs IH]; intros ns H; simpl in H.
   - inversion H. reflexivity.
-  - destruct x; try discriminate. destruct (ints_of xs) as [zs'|]; try discriminate.
-    inversion H. simpl. f_equal. apply IH. reflexivity.
+  - destruct (num_of x) as [n|] eqn:Hn; try discriminate.
+    destruct (nums_of xs) as [ns'|]; try discriminate.
+    inversion H. simpl. f_equal; [apply num_of_vnum; exact Hn|apply IH; reflexivity].
 Qed.
 
-Lemma rows_of_spec : forall xs rows, rows_of xs = Some rows -> xs = map vints rows.
+Lemma rows_of_spec : forall xs rows, rows_of xs = Some rows -> xs = map vnums rows.
 Proof.
   induction xs as [|x xs IH]; intros rows H; simpl in H.
   - inversion H. reflexivity.
   - destruct x; try discriminate.
-    destruct (ints_of l) as [zs|] eqn:Hz; try discriminate.
+    destruct (nums_of l) as [zs|] eqn:Hz; try discriminate.
     destruct (rows_of xs) as [rs|]; try discriminate.
     inversion H. simpl. f_equal.
-    + unfold vints. f_equal. apply ints_of_spec. exact Hz.
+    + unfold vnums. f_equal. apply nums_of_spec. exact Hz.
     + apply IH. reflexivity.
 Qed.
 
-Lemma fold_res_ints : forall u zs z,
-  fold_res (ew2 u) (VInt z) (map VInt zs) = Ok (VInt (fold_left u zs z)).
-Proof. induction zs as [|y zs IH]; intros z; simpl; [reflexivity|apply IH]. Qed.
+Lemma ew2_vnum : forall u a b, ew2 u (vnum a) (vnum b) = Ok (vnum (u a b)).
+Proof. intros u [x|x] [y|y]; reflexivity. Qed.
 
-(* element-wise operation on two integer rows of the same length *)
+Lemma is_list_vnum : forall n, is_list (vnum n) = false.
+Proof. intros [x|x]; reflexivity. Qed.
+
+Lemma fold_res_nums : forall u zs z,
+  fold_res (ew2 u) (vnum z) (map vnum zs) = Ok (vnum (fold_left u zs z)).
+Proof. induction zs as [|y zs IH]; intros z; cbn [map fold_res fold_left]; [reflexivity|]. rewrite ew2_vnum. apply IH. Qed.
+
+(* element-wise operation on two numeric rows of the same length *)
 Lemma ew2_rows : forall u r1 r2, List.length r1 = List.length r2 ->
-  ew2 u (vints r1) (vints r2) = Ok (vints (zipw u r1 r2)).
+  ew2 u (vnums r1) (vnums r2) = Ok (vnums (zipw u r1 r2)).
 Proof.
-  intros u r1. unfold vints.
+  intros u r1. unfold vnums.
   induction r1 as [|a r1 IH]; intros r2 Hlen; destruct r2 as [|b r2]; try discriminate.
   - reflexivity.
   - simpl in Hlen. injection Hlen as Hlen. specialize (IH r2 Hlen).
-    cbn [map ew2] in IH |- *. cbn [is_list Bool.eqb negb ew_sl].
-    cbn [ew2] in IH.
+    cbn [map ew2] in IH |- *. rewrite !is_list_vnum. cbn [Bool.eqb negb].
+    rewrite ew2_vnum.
     match type of IH with ?lhs = _ => match goal with |- context [lhs] => rewrite IH end end.
     reflexivity.
 Qed.
@@ -450,7 +460,7 @@ Proof. intros. unfold zipw. rewrite map_length, combine_length, <- H. apply Nat.
 
 Lemma fold_res_rows : forall u n rows r0,
   List.length r0 = n -> same_len n rows = true ->
-  fold_res (ew2 u) (vints r0) (map vints rows) = Ok (vints (fold_left (zipw u) rows r0)).
+  fold_res (ew2 u) (vnums r0) (map vnums rows) = Ok (vnums (fold_left (zipw u) rows r0)).
 Proof.
   intros u n rows. induction rows as [|r rows IH]; intros r0 H0 Hs; cbn [map fold_res fold_left].
   - reflexivity.
@@ -520,80 +530,169 @@ Proof.
   destruct (ew2 u x y); try reflexivity. apply IH.
 Qed.
 
-Lemma classify_vec : forall xs zs, classify xs = IntVec zs -> xs = map VInt zs.
+Lemma classify_vec : forall xs ns, classify xs = NumVec ns -> xs = map vnum ns.
 Proof.
-  intros xs zs H. unfold classify in H. destruct xs as [|x xs]; try discriminate.
-  destruct x; try discriminate.
-  - destruct (ints_of (VInt z :: xs)) eqn:Hi; try discriminate. inversion H. subst. apply ints_of_spec. exact Hi.
-  - destruct (rows_of (VList l :: xs)); try discriminate. destruct (same_len _ _); discriminate.
+  intros xs ns H. unfold classify in H. destruct xs as [|x xs]; try discriminate.
+  destruct x;
+    try (destruct (nums_of _) as [ms|] eqn:Hi; try discriminate;
+         destruct (uniform ms); try discriminate; inversion H; subst; apply nums_of_spec; exact Hi).
+  destruct (rows_of (VList l :: xs)); try discriminate. destruct (_ && _); discriminate.
 Qed.
 
-Lemma classify_mat : forall xs n rows, classify xs = IntMat n rows ->
-  xs = map vints rows /\ exists r0 rest, rows = r0 :: rest /\ List.length r0 = n /\ same_len n rest = true.
+Lemma classify_mat : forall xs n rows, classify xs = NumMat n rows ->
+  xs = map vnums rows /\ exists r0 rest, rows = r0 :: rest /\ List.length r0 = n /\ same_len n rest = true.
 Proof.
   intros xs n rows H. unfold classify in H. destruct xs as [|x xs]; try discriminate.
-  destruct x; try discriminate.
-  - destruct (ints_of (VInt z :: xs)); discriminate.
-  - destruct (rows_of (VList l :: xs)) as [rs|] eqn:Hr; try discriminate.
-    destruct (same_len (List.length l) rs) eqn:Hs; try discriminate.
-    inversion H. subst. split; [apply rows_of_spec; exact Hr|].
-    simpl in Hr. destruct (ints_of l) as [zs|] eqn:Hz; try discriminate.
-    destruct (rows_of xs) as [rs'|]; try discriminate. inversion Hr. subst.
-    exists zs, rs'. split; [reflexivity|].
-    simpl in Hs. apply andb_prop in Hs. destruct Hs as [H1 H2]. apply Nat.eqb_eq in H1.
-    split; [exact H1|]. exact H2.
+  destruct x;
+    try (destruct (nums_of _) as [ms|]; try discriminate; destruct (uniform ms); discriminate).
+  destruct (rows_of (VList l :: xs)) as [rs|] eqn:Hr; try discriminate.
+  destruct (same_len (List.length l) rs && uniform (List.concat rs)) eqn:Hs; try discriminate.
+  inversion H. subst. split; [apply rows_of_spec; exact Hr|].
+  apply andb_prop in Hs. destruct Hs as [Hs _].
+  simpl in Hr. destruct (nums_of l) as [zs|] eqn:Hz; try discriminate.
+  destruct (rows_of xs) as [rs'|]; try discriminate. inversion Hr. subst.
+  exists zs, rs'. split; [reflexivity|].
+  simpl in Hs. apply andb_prop in Hs. destruct Hs as [H1 H2]. apply Nat.eqb_eq in H1.
+  split; [exact H1|]. exact H2.
 Qed.
 
-(* np.<ufunc>.reduce(a) is the left fold of the element-wise extension of the scalar operation,
-   for EVERY operand: integer vectors, integer matrices (reduce along axis 0), and object arrays *)
-Theorem np_reduce_is_fold : forall u xs, xs <> [] -> np_reduce u xs = over_pure (ew2 u) xs.
-Proof.
-  intros u xs Hne. unfold np_reduce. destruct (classify xs) as [zs|n rows|] eqn:Hc.
-  - apply classify_vec in Hc. subst. destruct zs as [|z zs]; [exfalso; apply Hne; reflexivity|].
-    cbn [map over_pure fold1]. rewrite fold_res_ints. reflexivity.
-  - apply classify_mat in Hc. destruct Hc as [Hx [r0 [rest [Hrows [H0 Hs]]]]]. subst.
-    cbn [map over_pure]. rewrite (fold_res_rows u (List.length r0)) by (reflexivity || exact Hs).
-    f_equal. f_equal. apply reduce_axis0_is_fold; [reflexivity|exact Hs].
-  - destruct xs as [|x xs]; [congruence|]. simpl. apply obj_reduce_fold.
-Qed.
+(* what the cast of a ufunc must satisfy: casting an operand does not change the result of the
+   operation (true for "no cast", and for true_divide whose operation converts to binary64 itself) *)
+Definition uf_ok (uf : ufunc) : Prop :=
+  (forall a b, uf_op uf (uf_cast uf a) b = uf_op uf a b) /\ (forall a b, uf_op uf a (uf_cast uf b) = uf_op uf a b).
+
+Lemma uf_ok_same : forall u, uf_ok {| uf_cast := same_dtype; uf_op := u |}.
+Proof. intro u. split; reflexivity. Qed.
+
+Lemma uf_ok_divide : uf_ok {| uf_cast := cast_real; uf_op := n_div |}.
+Proof. split; intros a b; destruct a, b; reflexivity. Qed.
+
+Section Cast.
+  Variable uf : ufunc.
+  Hypothesis Hok : uf_ok uf.
+  Let c := uf_cast uf.
+  Let u := uf_op uf.
+
+  Lemma fold_cast : forall l a, fold_left u (map c l) a = fold_left u l a.
+  Proof.
+    induction l as [|x l IH]; intro a; simpl; [reflexivity|].
+    unfold u, c at 1. rewrite (proj2 Hok). apply IH.
+  Qed.
+
+  Lemma fold1_cast : forall n0 n1 rest,
+    fold1 u (NI 0) (map c (n0 :: n1 :: rest)) = fold_left u (n1 :: rest) n0.
+  Proof.
+    intros. cbn [map fold1 fold_left]. rewrite fold_cast.
+    unfold u, c. rewrite (proj1 Hok), (proj2 Hok). reflexivity.
+  Qed.
+
+  Lemma zipw_cast_r : forall acc r, zipw u acc (map c r) = zipw u acc r.
+  Proof.
+    induction acc as [|a acc IH]; intros r; destruct r as [|b r]; try reflexivity.
+    unfold zipw in *. cbn [map combine fst snd]. f_equal; [unfold u, c; apply (proj2 Hok)|apply IH].
+  Qed.
+
+  Lemma zipw_cast_l : forall acc r, zipw u (map c acc) r = zipw u acc r.
+  Proof.
+    induction acc as [|a acc IH]; intros r; destruct r as [|b r]; try reflexivity.
+    unfold zipw in *. cbn [map combine fst snd]. f_equal; [unfold u, c; apply (proj1 Hok)|apply IH].
+  Qed.
+
+  Lemma fold_zipw_cast : forall rows acc, fold_left (zipw u) (map (map c) rows) acc = fold_left (zipw u) rows acc.
+  Proof.
+    induction rows as [|r rows IH]; intro acc; simpl; [reflexivity|]. rewrite zipw_cast_r. apply IH.
+  Qed.
+
+  Lemma same_len_cast : forall n rows, same_len n rows = true ->
+    forallb (fun r => Nat.eqb (List.length r) n) (map (map c) rows) = true.
+  Proof.
+    induction rows as [|r rows IH]; intro H; simpl in *; [reflexivity|].
+    apply andb_prop in H. destruct H as [H1 H2]. rewrite map_length, H1. apply IH. exact H2.
+  Qed.
+
+  (* np.<ufunc>.reduce(a) is the left fold of the element-wise extension of the scalar operation,
+     for EVERY operand of at least two elements: numeric vectors, numeric matrices (reduce along axis 0),
+     and object arrays *)
+  Theorem np_reduce_is_fold : forall x y xs,
+    np_reduce uf (x :: y :: xs) = over_pure (ew2 u) (x :: y :: xs).
+  Proof.
+    intros x y xs. unfold np_reduce. destruct (classify (x :: y :: xs)) as [ns|n rows|] eqn:Hc.
+    - apply classify_vec in Hc. destruct ns as [|n0 [|n1 rest]]; try discriminate.
+      rewrite Hc. fold c u. rewrite fold1_cast. cbn [map over_pure].
+      change (vnum n1 :: map vnum rest) with (map vnum (n1 :: rest)). rewrite fold_res_nums. reflexivity.
+    - apply classify_mat in Hc. destruct Hc as [Hx [r0 [rest [Hrows [H0 Hs]]]]]. subst rows. subst n.
+      rewrite Hx. cbn [map over_pure]. rewrite (fold_res_rows u (List.length r0)) by (reflexivity || exact Hs).
+      f_equal. f_equal. fold c u. cbn [map].
+      rewrite (reduce_axis0_is_fold num u (NI 0) (List.length r0) (map c r0) (map (map c) rest));
+        [|rewrite map_length; reflexivity|apply same_len_cast; exact Hs].
+      rewrite fold_zipw_cast. destruct rest as [|r1 rest]; [destruct xs; discriminate|].
+      cbn [fold_left]. rewrite zipw_cast_l. reflexivity.
+    - cbn [over_pure]. apply obj_reduce_fold.
+  Qed.
+End Cast.
 
 (* np.min / np.max of an integer vector is the left fold of the dyad *)
-Lemma np_extreme_is_fold : forall (u : Z -> Z -> Z),
+Lemma np_extreme_is_fold_Z : forall (u : Z -> Z -> Z),
   (forall x y z, u x (u y z) = u (u x y) z) -> (forall x y, u x y = u y x) ->
-  forall zs, np_extreme u zs = fold1 u 0 zs.
+  forall z zs, fold_right u z zs = fold_left u zs z.
+Proof. intros u Hassoc Hcomm z zs. symmetry. apply fold_symmetric; [exact Hassoc|intro y; apply Hcomm]. Qed.
+
+Definition all_int (ns : list num) : bool := forallb (fun n => negb (is_real n)) ns.
+
+Lemma all_int_spec : forall ns, all_int ns = true -> exists zs, ns = map NI zs.
 Proof.
-  intros u Hassoc Hcomm zs. destruct zs as [|z zs]; [reflexivity|].
-  simpl. symmetry. apply fold_symmetric; [exact Hassoc|intro y; apply Hcomm].
+  induction ns as [|n ns IH]; intro H; [exists []; reflexivity|].
+  simpl in H. apply andb_prop in H. destruct H as [H1 H2]. destruct n; try discriminate.
+  destruct (IH H2) as [zs Hz]. exists (z :: zs). simpl. f_equal. exact Hz.
 Qed.
 
-(* ,/a on an integer vector is a, on an integer matrix the concatenation of its rows *)
-Lemma fold_join_ints : forall zs acc,
-  fold_res join (vints acc) (map VInt zs) = Ok (vints (acc ++ zs)).
+Lemma fold_right_NI : forall fo zo, (forall x y, arith_op zo fo (NI x) (NI y) = NI (zo x y)) ->
+  forall zs z, fold_right (arith_op zo fo) (NI z) (map NI zs) = NI (fold_right zo z zs).
+Proof. intros fo zo H zs z. induction zs as [|y zs IH]; simpl; [reflexivity|]. rewrite IH. apply H. Qed.
+
+Lemma fold_left_NI : forall fo zo,
+  forall zs z, fold_left (arith_op zo fo) (map NI zs) (NI z) = NI (fold_left zo zs z).
+Proof. intros fo zo zs. induction zs as [|y zs IH]; intro z; simpl; [reflexivity|]. apply IH. Qed.
+
+(* ,/a on a numeric vector is a, on a numeric matrix the concatenation of its rows *)
+Lemma join_list_vnum : forall l n, join (VList l) (vnum n) = Ok (VList (l ++ [vnum n])).
+Proof. intros l [x|x]; reflexivity. Qed.
+
+Lemma join_vnum_vnum : forall a b, join (vnum a) (vnum b) = Ok (VList [vnum a; vnum b]).
+Proof. intros [x|x] [y|y]; reflexivity. Qed.
+
+Lemma fold_join_nums : forall zs acc,
+  fold_res join (vnums acc) (map vnum zs) = Ok (vnums (acc ++ zs)).
 Proof.
-  induction zs as [|z zs IH]; intros acc; simpl.
+  induction zs as [|z zs IH]; intros acc; cbn [map fold_res].
   - rewrite app_nil_r. reflexivity.
-  - unfold vints at 1. cbn [join]. change (VList (map VInt acc ++ [VInt z])) with (VList (map VInt acc ++ map VInt [z])).
-    rewrite <- map_app. fold (vints (acc ++ [z])). rewrite IH. rewrite <- app_assoc. reflexivity.
+  - unfold vnums at 1. rewrite join_list_vnum.
+    change (VList (map vnum acc ++ [vnum z])) with (VList (map vnum acc ++ map vnum [z])).
+    rewrite <- map_app. fold (vnums (acc ++ [z])). rewrite IH. rewrite <- app_assoc. reflexivity.
 Qed.
 
 Lemma fold_join_rows : forall rows acc,
-  fold_res join (vints acc) (map vints rows) = Ok (vints (acc ++ List.concat rows)).
+  fold_res join (vnums acc) (map vnums rows) = Ok (vnums (acc ++ List.concat rows)).
 Proof.
   induction rows as [|r rows IH]; intros acc; simpl.
   - rewrite app_nil_r. reflexivity.
-  - unfold vints at 1 2. cbn [join]. rewrite <- map_app. fold (vints (acc ++ r)).
+  - unfold vnums at 1 2. cbn [join]. rewrite <- map_app. fold (vnums (acc ++ r)).
     rewrite IH. rewrite <- app_assoc. reflexivity.
 Qed.
 
 Section Shortcuts.
   Variable S : Type.
 
-  Definition arith_ops : list (string * (Z -> Z -> Z)) :=
-    [("+"%string, Z.add); ("-"%string, Z.sub); ("*"%string, Z.mul)].
+  (* operator, its NumPy ufunc, its Klong semantics on numbers *)
+  Definition reduce_ops : list (string * (ufunc * (num -> num -> num))) :=
+    [("+"%string, ({| uf_cast := same_dtype; uf_op := n_add |}, n_add));
+     ("-"%string, ({| uf_cast := same_dtype; uf_op := n_sub |}, n_sub));
+     ("*"%string, ({| uf_cast := same_dtype; uf_op := n_mul |}, n_mul));
+     ("%"%string, ({| uf_cast := cast_real; uf_op := n_div |}, n_div))].
 
   (* +/a -/a */a by ufunc.reduce = the expansion with the operator's own semantics, every operand *)
   Theorem over_shortcut_arith : forall op u (a : val) (s : S),
-    In (op, u) arith_ops ->
+    In (op, u) [("+"%string, n_add); ("-"%string, n_sub); ("*"%string, n_mul)] ->
     m_over over_table_model (Some op) (pure2 (ew2 u)) a s = s_over (pure2 (ew2 u)) a s.
   Proof.
     intros op u a s Hin. unfold m_over.
@@ -602,32 +701,112 @@ Section Shortcuts.
     destruct (items a) as [|x [|y xs]] eqn:Hit.
     - exfalso; eapply nonatom_items; eauto.
     - reflexivity.
-    - assert (Hsc : over_shortcut over_table_model (Some op) (x :: y :: xs) = Some (np_reduce u (x :: y :: xs))).
-      { simpl in Hin. destruct Hin as [H|[H|[H|[]]]]; inversion H; subst; reflexivity. }
-      rewrite Hsc. unfold lift. rewrite np_reduce_is_fold by discriminate. reflexivity.
+    - simpl in Hin. destruct Hin as [H|[H|[H|[]]]]; inversion H; subst.
+      + change (over_shortcut over_table_model (Some "+"%string) (x :: y :: xs))
+          with (Some (np_reduce {| uf_cast := same_dtype; uf_op := n_add |} (x :: y :: xs))).
+        unfold lift. rewrite np_reduce_is_fold by apply uf_ok_same. reflexivity.
+      + change (over_shortcut over_table_model (Some "-"%string) (x :: y :: xs))
+          with (Some (np_reduce {| uf_cast := same_dtype; uf_op := n_sub |} (x :: y :: xs))).
+        unfold lift. rewrite np_reduce_is_fold by apply uf_ok_same. reflexivity.
+      + change (over_shortcut over_table_model (Some "*"%string) (x :: y :: xs))
+          with (Some (np_reduce {| uf_cast := same_dtype; uf_op := n_mul |} (x :: y :: xs))).
+        unfold lift. rewrite np_reduce_is_fold by apply uf_ok_same. reflexivity.
   Qed.
 
-  (* &/a |/a: np.min / np.max on integer vectors, the generic fold otherwise *)
+  (* ---- Divide.  The verb: a%0 is :undefined for atoms (klong_div), element-wise true division otherwise. *)
+  Definition no_zero_scalars (l : list val) : bool := forallb (fun v => negb (is_zero_scalar v)) l.
+
+  Lemma klong_div_nonzero : forall a b, is_zero_scalar b = false -> klong_div a b = ew2 n_div a b.
+  Proof. intros a b H. unfold klong_div. rewrite H, andb_false_r. reflexivity. Qed.
+
+  Lemma fold_res_klong_div : forall xs x, no_zero_scalars xs = true ->
+    fold_res klong_div x xs = fold_res (ew2 n_div) x xs.
+  Proof.
+    induction xs as [|y xs IH]; intros x H; [reflexivity|].
+    simpl in H. apply andb_prop in H. destruct H as [Hy Hxs]. apply negb_true_iff in Hy.
+    cbn [fold_res]. rewrite klong_div_nonzero by exact Hy. destruct (ew2 n_div x y); try reflexivity. apply IH. exact Hxs.
+  Qed.
+
+  Lemma is_zero_scalar_vnum : forall n, is_zero_scalar (vnum n) = is_zero_num n.
+  Proof. intros [z|f]; reflexivity. Qed.
+
+  (* the operands of the divide theorem: everything except an object array that holds a zero number among
+     its divisors (NumPy's comparison of such an array with 0 is not modelled) *)
+  Definition div_dom (a : val) : bool :=
+    match classify (items a) with Other => no_zero_scalars (tl (items a)) | _ => true end.
+
+  Lemma guard_no_zero : forall x xs,
+    zero_divisor (x :: xs) = false ->
+    (match classify (x :: xs) with Other => no_zero_scalars xs | _ => true end) = true ->
+    no_zero_scalars xs = true.
+  Proof.
+    intros x xs Hz Hd. unfold zero_divisor in Hz.
+    destruct (classify (x :: xs)) as [ns|n rows|] eqn:Hc.
+    - apply classify_vec in Hc. destruct ns as [|n0 rest]; [discriminate|].
+      cbn [map] in Hc. injection Hc as _ Hxs. subst xs. cbn [tl] in Hz.
+      unfold no_zero_scalars. rewrite forallb_forall. intros v Hv. apply in_map_iff in Hv.
+      destruct Hv as [m [Hm Hin]]. subst v. rewrite is_zero_scalar_vnum.
+      apply negb_true_iff. destruct (is_zero_num m) eqn:Hzm; [|reflexivity].
+      exfalso. assert (existsb is_zero_num rest = true) by (apply existsb_exists; exists m; split; assumption).
+      congruence.
+    - apply classify_mat in Hc. destruct Hc as [Hx _]. destruct rows as [|r0 rest]; [discriminate|].
+      cbn [map] in Hx. injection Hx as _ Hxs. subst xs.
+      unfold no_zero_scalars. rewrite forallb_forall. intros v Hv. apply in_map_iff in Hv.
+      destruct Hv as [r [Hr _]]. subst v. reflexivity.
+    - exact Hd.
+  Qed.
+
+  (* %/a: divide.reduce (guarded by `not _has_zero_divisor(a)`) = the expansion with the verb's own
+     semantics, :undefined for a zero divisor included *)
+  Theorem over_shortcut_divide : forall (a : val) (s : S),
+    div_dom a = true ->
+    m_over over_table_model (Some "%"%string) (pure2 klong_div) a s = s_over (pure2 klong_div) a s.
+  Proof.
+    intros a s Hdom. unfold m_over.
+    destruct (is_atom a) eqn:Ha; [unfold s_over; rewrite Ha; reflexivity|].
+    rewrite s_over_pure by exact Ha. unfold div_dom in Hdom.
+    destruct (items a) as [|x [|y xs]] eqn:Hit.
+    - exfalso; eapply nonatom_items; eauto.
+    - reflexivity.
+    - change (over_shortcut over_table_model (Some "%"%string) (x :: y :: xs))
+        with (if zero_divisor (x :: y :: xs) then None
+              else Some (np_reduce {| uf_cast := cast_real; uf_op := n_div |} (x :: y :: xs))).
+      destruct (zero_divisor (x :: y :: xs)) eqn:Hz.
+      + rewrite py_reduce_pure. reflexivity.
+      + unfold lift. rewrite np_reduce_is_fold by apply uf_ok_divide.
+        cbn [over_pure uf_op]. rewrite fold_res_klong_div; [reflexivity|].
+        apply (guard_no_zero x (y :: xs) Hz). exact Hdom.
+  Qed.
+
+  (* the operands on which np.min / np.max is proved equal to the fold: everything except a vector of
+     reals (binary64 min is not associative/commutative in the presence of -0.0 and NaN) *)
+  Definition minmax_dom (a : val) : bool :=
+    match classify (items a) with NumVec ns => all_int ns | _ => true end.
+
+  (* &/a |/a: np.min / np.max on vectors, the generic fold otherwise *)
   Theorem over_shortcut_minmax : forall op u (a : val) (s : S),
-    In (op, u) [("&"%string, Z.min); ("|"%string, Z.max)] ->
+    In (op, u) [("&"%string, n_min); ("|"%string, n_max)] -> minmax_dom a = true ->
     m_over over_table_model (Some op) (pure2 (ew2 u)) a s = s_over (pure2 (ew2 u)) a s.
   Proof.
-    intros op u a s Hin. unfold m_over.
+    intros op u a s Hin Hdom. unfold m_over.
     destruct (is_atom a) eqn:Ha; [unfold s_over; rewrite Ha; reflexivity|].
-    rewrite s_over_pure by exact Ha.
+    rewrite s_over_pure by exact Ha. unfold minmax_dom in Hdom.
     destruct (items a) as [|x [|y xs]] eqn:Hit.
     - exfalso; eapply nonatom_items; eauto.
     - reflexivity.
     - assert (Hsc : over_shortcut over_table_model (Some op) (x :: y :: xs)
-                    = match classify (x :: y :: xs) with IntVec zs => Some (Ok (VInt (np_extreme u zs))) | _ => None end).
+                    = match classify (x :: y :: xs) with NumVec ns => Some (Ok (vnum (np_extreme u ns))) | _ => None end).
       { simpl in Hin. destruct Hin as [H|[H|[]]]; inversion H; subst; reflexivity. }
-      rewrite Hsc. destruct (classify (x :: y :: xs)) as [zs| |] eqn:Hc.
+      rewrite Hsc. destruct (classify (x :: y :: xs)) as [ns| |] eqn:Hc.
       + unfold lift. apply classify_vec in Hc. rewrite Hc.
-        destruct zs as [|z zs]; [discriminate|]. cbn [map over_pure]. rewrite fold_res_ints.
-        f_equal. f_equal. f_equal.
+        destruct (all_int_spec ns Hdom) as [zs Hz]. subst ns.
+        destruct zs as [|z zs]; [discriminate|]. cbn [map over_pure]. rewrite fold_res_nums.
+        f_equal. f_equal. f_equal. cbn [np_extreme].
         simpl in Hin. destruct Hin as [H|[H|[]]]; inversion H; subst.
-        * apply (np_extreme_is_fold Z.min Z.min_assoc Z.min_comm (z :: zs)).
-        * apply (np_extreme_is_fold Z.max Z.max_assoc Z.max_comm (z :: zs)).
+        * unfold n_min. rewrite fold_right_NI by reflexivity. rewrite fold_left_NI.
+          f_equal. apply (np_extreme_is_fold_Z Z.min Z.min_assoc Z.min_comm).
+        * unfold n_max. rewrite fold_right_NI by reflexivity. rewrite fold_left_NI.
+          f_equal. apply (np_extreme_is_fold_Z Z.max Z.max_assoc Z.max_comm).
       + rewrite py_reduce_pure. reflexivity.
       + rewrite py_reduce_pure. reflexivity.
   Qed.
@@ -644,20 +823,266 @@ Section Shortcuts.
     - reflexivity.
     - change (over_shortcut over_table_model (Some ","%string) (x :: y :: xs))
         with (match classify (x :: y :: xs) with
-              | IntVec zs => Some (Ok (vints zs))
-              | IntMat _ rows => Some (Ok (vints (List.concat rows)))
+              | NumVec ns => Some (Ok (vnums ns))
+              | NumMat _ rows => Some (Ok (vnums (List.concat rows)))
               | Other => None
               end).
-      destruct (classify (x :: y :: xs)) as [zs|n rows|] eqn:Hc.
+      destruct (classify (x :: y :: xs)) as [ns|n rows|] eqn:Hc.
       + unfold lift. apply classify_vec in Hc. rewrite Hc.
-        destruct zs as [|z [|z2 zs]]; try discriminate.
-        cbn [map over_pure fold_res join].
-        change (VList [VInt z; VInt z2]) with (vints [z; z2]). rewrite fold_join_ints. reflexivity.
+        destruct ns as [|z [|z2 zs]]; try discriminate.
+        cbn [map over_pure fold_res]. rewrite join_vnum_vnum.
+        change (VList [vnum z; vnum z2]) with (vnums [z; z2]). rewrite fold_join_nums. reflexivity.
       + unfold lift. apply classify_mat in Hc. destruct Hc as [Hx [r0 [rest [Hrows [H0 Hs]]]]].
         rewrite Hx, Hrows. cbn [map over_pure]. rewrite fold_join_rows. reflexivity.
       + rewrite py_reduce_pure. reflexivity.
   Qed.
 End Shortcuts.
+
+(* ------------------------------------------------------------------ the Scan-Over shortcuts *)
+Section PureScan.
+  Variable S : Type.
+
+  Lemma py_accumulate_pure : forall (g : val -> val -> res val) xs t r (s : S),
+    py_accumulate (pure2 g) t xs r s
+    = (match acc_res g t xs with Ok l => Ok (r ++ l) | Err e => Err e | OutOfFuel => OutOfFuel end, s).
+  Proof.
+    induction xs as [|x xs IH]; intros t r s; cbn [py_accumulate acc_res].
+    - unfold ret. rewrite app_nil_r. reflexivity.
+    - unfold bind, pure2, lift at 1. destruct (g t x) as [v|e|]; try reflexivity.
+      rewrite IH. destruct (acc_res g v xs); try reflexivity. rewrite <- app_assoc. reflexivity.
+  Qed.
+
+  Lemma s_scan_pure : forall (g : val -> val -> res val) a (s : S),
+    is_atom a = false -> s_scan (pure2 g) a s = (scan_pure g (items a), s).
+  Proof.
+    intros g a s Ha.
+    rewrite <- (scan_generic_eq S [] (pure2 g) a s). unfold m_scan.
+    assert (He : is_empty a = false).
+    { unfold is_atom in Ha. destruct (is_iterable a); [exact Ha|discriminate]. }
+    rewrite He, Ha.
+    destruct (items a) as [|x xs] eqn:Hit; [exfalso; eapply nonatom_items; eauto|].
+    cbn [scan_shortcut]. unfold bind. rewrite py_accumulate_pure. cbn [scan_pure].
+    destruct (acc_res g x xs); reflexivity.
+  Qed.
+End PureScan.
+
+Lemma obj_accumulate_acc : forall u xs x, obj_accumulate u x xs = acc_res (ew2 u) x xs.
+Proof.
+  induction xs as [|y xs IH]; intros x; simpl; [reflexivity|].
+  destruct (ew2 u x y); try reflexivity. rewrite IH. reflexivity.
+Qed.
+
+Lemma acc_res_nums : forall u rest n0,
+  acc_res (ew2 u) (vnum n0) (map vnum rest) = Ok (map vnum (scanl u n0 rest)).
+Proof.
+  induction rest as [|y rest IH]; intros n0; cbn [map acc_res scanl]; [reflexivity|].
+  rewrite ew2_vnum. rewrite IH. reflexivity.
+Qed.
+
+Lemma acc_res_rows : forall u n rest r0,
+  List.length r0 = n -> same_len n rest = true ->
+  acc_res (ew2 u) (vnums r0) (map vnums rest) = Ok (map vnums (scanl (zipw u) r0 rest)).
+Proof.
+  intros u n rest. induction rest as [|r rest IH]; intros r0 H0 Hs; cbn [map acc_res scanl]; [reflexivity|].
+  simpl in Hs. apply andb_prop in Hs. destruct Hs as [Hr Hs]. apply Nat.eqb_eq in Hr.
+  rewrite ew2_rows by congruence. rewrite IH; [reflexivity| |exact Hs].
+  rewrite zipw_length by congruence. exact H0.
+Qed.
+
+(* accumulate along axis 0, column by column  =  running fold of the row-wise operation *)
+Section Axis0Scan.
+  Variable A : Type.
+  Variable u : A -> A -> A.
+  Variable d : A.
+
+  Lemma scanl_length : forall (B : Type) (f : B -> B -> B) l acc, List.length (scanl f acc l) = List.length l.
+  Proof. induction l as [|x l IH]; intro acc; simpl; [reflexivity|]. rewrite IH. reflexivity. Qed.
+
+  Lemma scanl1_length : forall (B : Type) (f : B -> B -> B) l, List.length (scanl1 f l) = List.length l.
+  Proof. intros B f [|x l]; simpl; [reflexivity|]. rewrite scanl_length. reflexivity. Qed.
+
+  Lemma nth_scanl : forall (B : Type) (f : B -> B -> B) (e : B) l acc i, (i < List.length l)%nat ->
+    nth i (scanl f acc l) e = fold_left f (firstn (Datatypes.S i) l) acc.
+  Proof.
+    induction l as [|x l IH]; intros acc i Hi; simpl in Hi; [lia|].
+    destruct i as [|i]; [reflexivity|]. cbn [scanl nth]. rewrite IH by lia. reflexivity.
+  Qed.
+
+  Lemma nth_scanl1 : forall (B : Type) (f : B -> B -> B) (e : B) l i, (i < List.length l)%nat ->
+    nth i (scanl1 f l) e = fold1 f e (firstn (Datatypes.S i) l).
+  Proof.
+    intros B f e [|x l] i Hi; simpl in Hi; [lia|].
+    destruct i as [|i]; [reflexivity|]. cbn [scanl1 nth]. rewrite nth_scanl by lia. reflexivity.
+  Qed.
+
+  Lemma in_firstn : forall (B : Type) k (l : list B) x, In x (firstn k l) -> In x l.
+  Proof.
+    induction k as [|k IH]; intros l x H; [destruct H|].
+    destruct l as [|y l]; [destruct H|]. simpl in H. destruct H as [H|H]; [left; exact H|right; apply IH; exact H].
+  Qed.
+
+  Lemma col_firstn : forall k j (rows : list (list A)), col d j (firstn k rows) = firstn k (col d j rows).
+  Proof. intros. unfold col. rewrite firstn_map. reflexivity. Qed.
+
+  Theorem accumulate_axis0_is_scan : forall n r0 rows,
+    List.length r0 = n -> forallb (fun r => Nat.eqb (List.length r) n) rows = true ->
+    accumulate_axis0 u d n (r0 :: rows) = scanl1 (zipw u) (r0 :: rows).
+  Proof.
+    intros n r0 rows H0 Hs. unfold accumulate_axis0.
+    set (all := r0 :: rows). set (m := List.length all).
+    rewrite (list_as_nth_map (list A) [] (scanl1 (zipw u) all) m) by (apply scanl1_length).
+    unfold transpose at 1. apply map_ext_in. intros i Hi. apply in_seq in Hi. destruct Hi as [_ Hi]. simpl in Hi.
+    rewrite (nth_scanl1 (list A) (zipw u) [] all i) by exact Hi.
+    (* row i of the right-hand side: the fold of the first i+1 rows = column-wise reduce of them *)
+    assert (Hf : firstn (Datatypes.S i) all = r0 :: firstn i rows) by reflexivity.
+    rewrite Hf. cbn [fold1].
+    rewrite <- (reduce_axis0_is_fold A u d n r0 (firstn i rows) H0).
+    2:{ apply forallb_forall. intros r Hr. apply in_firstn in Hr.
+        rewrite forallb_forall in Hs. apply Hs. exact Hr. }
+    unfold reduce_axis0, transpose, col. rewrite !map_map.
+    apply map_ext_in. intros j Hj.
+    rewrite (nth_scanl1 A u d) by (rewrite map_length; exact Hi).
+    rewrite <- Hf. rewrite firstn_map. reflexivity.
+  Qed.
+End Axis0Scan.
+
+Section CastScan.
+  Variable uf : ufunc.
+  Hypothesis Hok : uf_ok uf.
+  Let c := uf_cast uf.
+  Let u := uf_op uf.
+
+  Lemma scanl_cast_tail : forall l a, scanl u a (map c l) = scanl u a l.
+  Proof.
+    induction l as [|x l IH]; intro a; cbn [map scanl]; [reflexivity|].
+    replace (u a (c x)) with (u a x) by (symmetry; apply (proj2 Hok)). f_equal. apply IH.
+  Qed.
+
+  Lemma scanl_cast_head : forall l a, scanl u (c a) l = scanl u a l.
+  Proof.
+    intros [|x l] a; cbn [scanl]; [reflexivity|].
+    replace (u (c a) x) with (u a x) by (symmetry; apply (proj1 Hok)). reflexivity.
+  Qed.
+
+  Lemma scanl1_cast : forall n0 rest, scanl1 u (map c (n0 :: rest)) = c n0 :: scanl u n0 rest.
+  Proof. intros. cbn [map scanl1]. rewrite scanl_cast_tail, scanl_cast_head. reflexivity. Qed.
+
+  Lemma scanl_zipw_cast_tail : forall rows acc, scanl (zipw u) acc (map (map c) rows) = scanl (zipw u) acc rows.
+  Proof.
+    induction rows as [|r rows IH]; intro acc; cbn [map scanl]; [reflexivity|].
+    rewrite (zipw_cast_r uf Hok). f_equal. apply IH.
+  Qed.
+
+  Lemma scanl_zipw_cast_head : forall rows acc, scanl (zipw u) (map c acc) rows = scanl (zipw u) acc rows.
+  Proof.
+    intros [|r rows] acc; cbn [scanl]; [reflexivity|]. rewrite (zipw_cast_l uf Hok). reflexivity.
+  Qed.
+
+  (* the first slot of an accumulate is the first element, cast to the loop's dtype *)
+  Definition cast_first (xs : list val) : val :=
+    match classify xs with
+    | NumVec (n0 :: _) => vnum (c n0)
+    | NumMat _ (r0 :: _) => vnums (map c r0)
+    | _ => hd (VInt 0) xs
+    end.
+
+  Theorem np_accumulate_is_scan : forall x xs,
+    np_accumulate uf (x :: xs)
+    = match acc_res (ew2 u) x xs with
+      | Ok l => Ok (VList (cast_first (x :: xs) :: l))
+      | Err e => Err e
+      | OutOfFuel => OutOfFuel
+      end.
+  Proof.
+    intros x xs. unfold np_accumulate, cast_first.
+    destruct (classify (x :: xs)) as [ns|n rows|] eqn:Hc.
+    - apply classify_vec in Hc. destruct ns as [|n0 rest]; [discriminate|].
+      cbn [map] in Hc. injection Hc as Hx Hxs. subst x xs.
+      fold c u. rewrite scanl1_cast. rewrite acc_res_nums. reflexivity.
+    - apply classify_mat in Hc. destruct Hc as [Hx [r0 [rest [Hrows [H0 Hs]]]]]. subst rows n.
+      cbn [map] in Hx. injection Hx as Hx Hxs. subst x xs.
+      fold c u. cbn [map].
+      rewrite (accumulate_axis0_is_scan num u (NI 0) (List.length r0) (map c r0) (map (map c) rest));
+        [|rewrite map_length; reflexivity|apply (same_len_cast uf); exact Hs].
+      cbn [scanl1]. rewrite scanl_zipw_cast_tail, scanl_zipw_cast_head.
+      rewrite (acc_res_rows u (List.length r0)) by (reflexivity || exact Hs). reflexivity.
+    - cbn [hd]. rewrite obj_accumulate_acc. fold u. destruct (acc_res (ew2 u) x xs); reflexivity.
+  Qed.
+End CastScan.
+
+Lemma cast_first_same : forall u x xs,
+  cast_first {| uf_cast := same_dtype; uf_op := u |} (x :: xs) = x.
+Proof.
+  intros u x xs. unfold cast_first. destruct (classify (x :: xs)) as [ns|n rows|] eqn:Hc; [| |reflexivity].
+  - apply classify_vec in Hc. destruct ns as [|n0 rest]; [discriminate|]. cbn [map] in Hc.
+    injection Hc as Hx _. subst x. reflexivity.
+  - apply classify_mat in Hc. destruct Hc as [Hx [r0 [rest [Hrows _]]]]. subst rows.
+    cbn [map] in Hx. injection Hx as Hx _. subst x. cbn [uf_cast]. unfold same_dtype. rewrite map_id. reflexivity.
+Qed.
+
+Definition on_first (g : val -> val) (r : res val) : res val :=
+  match r with Ok (VList (x :: l)) => Ok (VList (g x :: l)) | other => other end.
+
+Section ScanShortcuts.
+  Variable S : Type.
+
+  (* +\a -\a *\a by ufunc.accumulate = the expansion with the operator's own semantics, every operand *)
+  Theorem scan_shortcut_arith : forall op u (a : val) (s : S),
+    In (op, u) [("+"%string, n_add); ("-"%string, n_sub); ("*"%string, n_mul)] ->
+    m_scan scan_table_model (Some op) (pure2 (ew2 u)) a s = s_scan (pure2 (ew2 u)) a s.
+  Proof.
+    intros op u a s Hin. unfold m_scan.
+    destruct (is_empty a) eqn:He; [unfold s_scan; rewrite He; reflexivity|].
+    destruct (is_atom a) eqn:Ha; [unfold s_scan; rewrite He, Ha; reflexivity|].
+    rewrite s_scan_pure by exact Ha.
+    destruct (items a) as [|x xs] eqn:Hit; [exfalso; eapply nonatom_items; eauto|].
+    simpl in Hin. destruct Hin as [H|[H|[H|[]]]]; inversion H; subst.
+    - change (scan_shortcut scan_table_model (Some "+"%string) (x :: xs))
+        with (Some (np_accumulate {| uf_cast := same_dtype; uf_op := n_add |} (x :: xs))).
+      unfold lift. rewrite np_accumulate_is_scan by apply uf_ok_same. rewrite cast_first_same. reflexivity.
+    - change (scan_shortcut scan_table_model (Some "-"%string) (x :: xs))
+        with (Some (np_accumulate {| uf_cast := same_dtype; uf_op := n_sub |} (x :: xs))).
+      unfold lift. rewrite np_accumulate_is_scan by apply uf_ok_same. rewrite cast_first_same. reflexivity.
+    - change (scan_shortcut scan_table_model (Some "*"%string) (x :: xs))
+        with (Some (np_accumulate {| uf_cast := same_dtype; uf_op := n_mul |} (x :: xs))).
+      unfold lift. rewrite np_accumulate_is_scan by apply uf_ok_same. rewrite cast_first_same. reflexivity.
+  Qed.
+
+  Lemma acc_res_klong_div : forall xs x, no_zero_scalars xs = true ->
+    acc_res klong_div x xs = acc_res (ew2 n_div) x xs.
+  Proof.
+    induction xs as [|y xs IH]; intros x H; [reflexivity|].
+    simpl in H. apply andb_prop in H. destruct H as [Hy Hxs]. apply negb_true_iff in Hy.
+    cbn [acc_res]. rewrite (klong_div_nonzero x y Hy). destruct (ew2 n_div x y); try reflexivity.
+    rewrite IH by exact Hxs. reflexivity.
+  Qed.
+
+  (* %\a by divide.accumulate (same guard) = the expansion with the verb's own semantics, except that the
+     first slot a1 (which the expansion leaves as it is) comes out converted to binary64 when a is a numeric
+     array and the shortcut is taken; with a zero divisor the generic path runs and the two are equal *)
+  Theorem scan_shortcut_divide : forall (a : val) (s : S),
+    is_atom a = false -> div_dom a = true ->
+    m_scan scan_table_model (Some "%"%string) (pure2 klong_div) a s
+    = ((if zero_divisor (items a) then fun r => r
+        else on_first (fun _ => cast_first {| uf_cast := cast_real; uf_op := n_div |} (items a)))
+         (fst (s_scan (pure2 klong_div) a s)), s).
+  Proof.
+    intros a s Ha Hdom. unfold m_scan.
+    assert (He : is_empty a = false).
+    { unfold is_atom in Ha. destruct (is_iterable a); [exact Ha|discriminate]. }
+    rewrite He, Ha. rewrite s_scan_pure by exact Ha. unfold div_dom in Hdom.
+    destruct (items a) as [|x xs] eqn:Hit; [exfalso; eapply nonatom_items; eauto|].
+    change (scan_shortcut scan_table_model (Some "%"%string) (x :: xs))
+      with (if zero_divisor (x :: xs) then None
+            else Some (np_accumulate {| uf_cast := cast_real; uf_op := n_div |} (x :: xs))).
+    destruct (zero_divisor (x :: xs)) eqn:Hz.
+    - unfold bind. rewrite py_accumulate_pure. cbn [fst scan_pure].
+      destruct (acc_res klong_div x xs); reflexivity.
+    - unfold lift. rewrite np_accumulate_is_scan by apply uf_ok_divide.
+      cbn [fst scan_pure uf_op]. rewrite acc_res_klong_div by (apply (guard_no_zero x xs Hz); exact Hdom).
+      destruct (acc_res (ew2 n_div) x xs); reflexivity.
+  Qed.
+End ScanShortcuts.
 
 (* ------------------------------------------------------------------ chains compose left to right *)
 Section Chains.
@@ -750,3 +1175,82 @@ Section While.
     m_while fuel (loggedp p) (logged1 g) (x 0%nat) log = (Ok (x n), log ++ while_calls 0 n ++ [CallP (x n)]).
   Proof. intros. unfold m_while. apply while_loop_orbit; lia. Qed.
 End While.
+
+(* ------------------------------------------------------------------ Scan-Converging / Scan-While along the orbit *)
+Section ScanConverge.
+  Variable g : val -> res val.
+  Variable x : nat -> val.
+  Variable n : nat.
+  Hypothesis Horbit : forall k, (k <= n)%nat -> g (x k) = Ok (x (Datatypes.S k)).
+  Hypothesis Hmoving : forall k, (k < n)%nat -> kg_equal (x k) (x (Datatypes.S k)) = false.
+  Hypothesis Hfix : kg_equal (x n) (x (Datatypes.S n)) = true.
+
+  Definition orbit_list (len : nat) : list val := map x (seq 0 len).
+
+  Lemma orbit_list_S : forall len, orbit_list (Datatypes.S len) = orbit_list len ++ [x len].
+  Proof. intro len. unfold orbit_list. rewrite seq_S, map_app. reflexivity. Qed.
+
+  Lemma scan_conv_loop_orbit : forall d j fuel log,
+    (j + d = n)%nat -> (d < fuel)%nat ->
+    scan_conv_loop fuel (logged1 g) (x j) (x (Datatypes.S j)) (orbit_list (Datatypes.S (Datatypes.S j))) log
+    = (Ok (VList (orbit_list (Datatypes.S n))), log ++ calls_of x (Datatypes.S j) d).
+  Proof.
+    induction d as [|d IH]; intros j fuel log Hj Hf; destruct fuel as [|fuel]; try lia.
+    - assert (j = n) by lia. subst j. cbn [scan_conv_loop]. rewrite Hfix.
+      rewrite (orbit_list_S (Datatypes.S n)), removelast_last.
+      unfold ret, calls_of. simpl. rewrite app_nil_r. reflexivity.
+    - cbn [scan_conv_loop]. rewrite Hmoving by lia.
+      unfold bind, logged1. rewrite Horbit by lia.
+      rewrite <- (orbit_list_S (Datatypes.S (Datatypes.S j))).
+      rewrite (IH (Datatypes.S j) fuel) by lia.
+      unfold calls_of. cbn [seq map]. rewrite <- app_assoc. reflexivity.
+  Qed.
+
+  Theorem scan_converging_terminates : forall fuel log,
+    (n < fuel)%nat ->
+    m_scan_converging fuel (logged1 g) (x 0%nat) log
+    = (Ok (VList (orbit_list (Datatypes.S n))), log ++ calls_of x 0 (Datatypes.S n)).
+  Proof.
+    intros fuel log Hf. unfold m_scan_converging, bind, logged1.
+    rewrite Horbit by lia.
+    change [x 0%nat; x 1%nat] with (orbit_list 2).
+    rewrite (scan_conv_loop_orbit n 0 fuel) by lia.
+    unfold calls_of. cbn [seq map]. rewrite <- app_assoc. reflexivity.
+  Qed.
+End ScanConverge.
+
+Section ScanWhile.
+  Variable p g : val -> res val.
+  Variable x : nat -> val.
+  Variable n : nat.
+  Hypothesis Horbit : forall k, (k < n)%nat -> g (x k) = Ok (x (Datatypes.S k)).
+  Hypothesis Htrue : forall k, (k < n)%nat -> exists t, p (x k) = Ok t /\ truthy t = Ok true.
+  Hypothesis Hfalse : exists t, p (x n) = Ok t /\ truthy t = Ok false.
+
+  Lemma scan_while_loop_orbit : forall d j fuel log,
+    (j + d = n)%nat -> (d < fuel)%nat ->
+    scan_while_loop fuel (loggedp p) (logged1 g) (x j) (orbit_list x (Datatypes.S j)) log
+    = (Ok (VList (orbit_list x n)), log ++ while_calls x j d ++ [CallP (x n)]).
+  Proof.
+    induction d as [|d IH]; intros j fuel log Hj Hf; destruct fuel as [|fuel]; try lia.
+    - assert (j = n) by lia. subst j. cbn [scan_while_loop]. unfold bind, loggedp.
+      destruct Hfalse as [t [Hp Ht]]. rewrite Hp, Ht.
+      rewrite (orbit_list_S x n), removelast_last. reflexivity.
+    - cbn [scan_while_loop]. unfold bind at 1. unfold loggedp at 1.
+      destruct (Htrue j) as [t [Hp Ht]]; [lia|]. rewrite Hp, Ht.
+      unfold bind, logged1. rewrite Horbit by lia.
+      rewrite <- (orbit_list_S x (Datatypes.S j)).
+      rewrite (IH (Datatypes.S j) fuel) by lia.
+      unfold while_calls. cbn [seq flat_map]. rewrite <- !app_assoc. reflexivity.
+  Qed.
+
+  (* the collected list holds exactly the orbit elements that satisfy the test: x 0 .. x (n-1) *)
+  Theorem scan_while_terminates : forall fuel log,
+    (n < fuel)%nat ->
+    m_scan_while fuel (loggedp p) (logged1 g) (x 0%nat) log
+    = (Ok (VList (orbit_list x n)), log ++ while_calls x 0 n ++ [CallP (x n)]).
+  Proof.
+    intros. unfold m_scan_while. change [x 0%nat] with (orbit_list x 1).
+    apply scan_while_loop_orbit; lia.
+  Qed.
+End ScanWhile.
